@@ -111,6 +111,37 @@ def rebind_unit():
     return u
 
 
+def default_unit():
+    """a program that configures its own default policy: everything that is given no policy - class registrations through the
+    template API, methods, virtual_ptr and its deduction guide, virtual_shared_ptr, update - lands in the configured policy, the
+    same one for all of them (otherwise classes are registered in one policy and looked up in another)"""
+    u = e3.Unit("c14_default", """
+#include <yorel/yomm2/policy.hpp>
+namespace c14d { struct mine : yorel::yomm2::policy::release::rebind<mine> {}; }
+#define YOMM2_DEFAULT_POLICY ::c14d::mine
+#include <yorel/yomm2/core.hpp>
+#include <yorel/yomm2/macros.hpp>
+using namespace yorel::yomm2;
+namespace c14d { struct A { virtual ~A() {} }; struct B : A {}; struct key;
+template<class T> struct pol_vp; template<class C, class P> struct pol_vp<virtual_ptr<C, P>> { using type = P; };
+template<class M> struct pol_m; template<class K, class S, class P> struct pol_m<method<K, S, P>> { using type = P; };
+template<class C> struct pol_c; template<class P> struct pol_c<detail::compiler<P>> { using type = P; };
+YOMM2_DECLARE(int, dm, (virtual_<A&>));
+}
+using namespace c14d;
+""")
+    u.add("default|get_policy", "a class list without a policy belongs to the configured default policy", "static_assert(std::is_same_v<detail::get_policy<A, B>, mine>);")
+    u.add("default|use_classes", "use_classes<A, B> is use_classes<A, B, configured default>", "static_assert(std::is_same_v<use_classes<A, B>, use_classes<A, B, mine>>);")
+    u.add("default|class_declaration", "class_declaration<A, B> registers in the configured default policy", "static_assert(std::is_base_of_v<detail::class_declaration_aux<mine, detail::types<A, B>>, class_declaration<A, B>> && std::is_base_of_v<detail::class_declaration_aux<mine, detail::types<A, B>>, class_declaration<detail::types<A, B>>>);")
+    u.add("default|named", "a class list that names a policy belongs to that policy", "static_assert(std::is_same_v<detail::get_policy<A, B, policy::release>, policy::release>);")
+    u.add("default|method", "a method given no policy belongs to the configured default policy", "static_assert(std::is_same_v<pol_m<method<key, int(virtual_<A&>)>>::type, mine>);")
+    u.add("default|macro", "a method declared with the macro belongs to the configured default policy", "static_assert(std::is_same_v<pol_m<decltype(yOMM2_SELECTOR(dm)(std::declval<A&>()))>::type, mine>);")
+    u.add("default|virtual_ptr", "virtual_ptr<A> / virtual_shared_ptr<A> / the deduction guide use the configured default policy", "static_assert(std::is_same_v<pol_vp<virtual_ptr<A>>::type, mine> && std::is_same_v<pol_vp<virtual_shared_ptr<A>>::type, mine> && std::is_same_v<decltype(virtual_ptr(std::declval<A&>())), virtual_ptr<A, mine>>);")
+    u.add("default|final", "final_virtual_ptr / make_virtual_shared use the configured default policy", "static_assert(std::is_same_v<decltype(final_virtual_ptr(std::declval<A&>())), virtual_ptr<A, mine>> && std::is_same_v<decltype(make_virtual_shared<B>()), virtual_ptr<std::shared_ptr<B>, mine>>);")
+    u.add("default|update", "update() compiles the configured default policy", "static_assert(std::is_same_v<pol_c<decltype(update())>::type, mine>);")
+    return u
+
+
 def cross_ok(ast, fkeys, vkeys):
     fk, vk = set(fkeys), set(vkeys)
     if not fk or not vk:
@@ -206,6 +237,10 @@ def check(run):
     for ob, ok, msg in e3.run_unit(run, r4, rebind_unit()):
         if not ok:
             run.violation(r4, ob["key"], "%s: %s" % (ob["desc"], msg), "include/yorel/yomm2/policies/core.hpp")
+    run.rule("C14-default", "with a configured YOMM2_DEFAULT_POLICY, every API given no policy (class lists, methods, macros, virtual_ptr, final, update) uses that one policy", floor=8)
+    for ob, ok, msg in e3.run_unit(run, "C14-default", default_unit()):
+        if not ok:
+            run.violation("C14-default", ob["key"], "%s: %s" % (ob["desc"], msg), "include/yorel/yomm2/core.hpp")
     run.assumptions += ["'keyed' = a policy type (derived from policy::abstract_policy) occurs among the template arguments of an enclosing specialisation",
                         "writes through pointers registered in a policy's own catalogs (static_vptr, slots_strides_ptr) are attributed to that policy by construction of the registration objects (C18-pair checks the constructors)",
                         "error-handler identity: Q::error / Q::call_error are distinct objects from S::error (C14-rebind); what a user handler does is outside"]
